@@ -97,6 +97,9 @@ SmallCalls == StreamOK({"prod", "exch"}, 1, {0, 2}, {"eq"}, {"none"}, {<<>>}) \c
 FullCalls == StreamOK({"prod", "prodh", "exch", "exchh", "dynp", "dynx"}, 2, {0, 1, 2, 3}, {"eq", "castable", "bad"},
                       {"none", "user", "collide", "dup"}, Lg1)
              \cup StreamBad({"prod", "prodh", "exch", "exchh", "dynp", "dynx"})
+\* streams whose data batches are externalized (ExtK = 9): plain, annotated and logged emits,
+\* every terminator -- the externalize branch of each flush loop has its own ownership rules
+ExtCalls == StreamOK({"prod", "exch"}, 1, {0, 2}, {"eq"}, {"none", "user"}, {<<>>}) \cup StreamBad({"prod"})
 \* producers that only emit: the population for the response-size cap (sizes are uniform)
 CapCalls == { [k |-> "stream", m |-> "prod", hdr |-> FALSE, pm |-> "ok", init |-> "ok", logs |-> <<>>, lvl |-> "",
                turns |-> t, nin |-> 3, cancel |-> 0, cast |-> "eq", meta |-> "none"] :
